@@ -21,6 +21,10 @@ import SarpyModel.Drivers.Segment
 import SarpyModel.Drivers.FieldFmt2
 import SarpyModel.Drivers.XsdFmt
 import SarpyModel.Drivers.Kernels2
+import SarpyModel.Drivers.NitfAssembly
+import SarpyModel.Drivers.LifeGen
+import SarpyModel.Drivers.Tre
+import SarpyModel.Drivers.NitfDtype
 namespace Sarpy.Drivers
 
 def step (line : String) : String :=
@@ -49,6 +53,10 @@ def step (line : String) : String :=
   | "fmt2" :: rest => (fmt2Step rest).getD "bad-op"
   | "xsd" :: rest => (xsdStep rest).getD "bad-op"
   | "k2" :: rest => (k2Step rest).getD "bad-op"
+  | "nitfasm" :: rest => (nitfasmStep rest).getD "bad-op"
+  | "lifegen" :: rest => (lifeGenStep rest).getD "bad-op"
+  | "tre" :: rest => (treStep rest).getD "bad-op"
+  | "nitfdtype" :: rest => (nitfdtypeStep rest).getD "bad-op"
   | _ => "bad-op"
 
 partial def loop (h : IO.FS.Stream) : IO Unit := do
